@@ -66,6 +66,15 @@ Theorem C13_spelling_canonical :
 Proof. exact spell_check_sound. Qed.
 Print Assumptions C13_spelling_canonical.
 
+(* the table check is not vacuous: the state of the tree before fix F3 (two accepted spellings of INT64 storing
+   different scalar types) violates spelling canonicity *)
+Theorem C13_spelling_alias_refuted :
+  exists canon tbl,
+    (forall r, In r tbl -> exists st c, sp_result r = Accepted st c /\ sp_onnx r = Some c) /\
+    ~ spellings_canonical canon tbl.
+Proof. exact spelling_alias_refuted. Qed.
+Print Assumptions C13_spelling_alias_refuted.
+
 (* ------------------------------------------------------------------ compatibility *)
 
 (* The judgement holds exactly when a common populated runtime value exists. Domain: the left operand is an ONNX type
@@ -164,6 +173,20 @@ Theorem C13_broadcast_raises_only_if_impossible :
   forall sa sb, conf_shape sa a -> conf_shape sb b -> np_broadcast sa sb = None.
 Proof. exact broadcast_complete. Qed.
 Print Assumptions C13_broadcast_raises_only_if_impossible.
+
+(* ... and conversely a static result is never vacuous: if it does not raise, conforming runtime shapes that broadcast
+   exist; so (ranks known, constants naturals) ShapeError is raised EXACTLY when no conforming values could broadcast. *)
+Theorem C13_broadcast_accepts_only_if_possible :
+  forall x y r, forallb wf_dim x = true -> forallb wf_dim y = true -> broadcast (Some x) (Some y) = BShape (Some r) ->
+  exists sa sb sc, Forall2 conf sa x /\ Forall2 conf sb y /\ np_broadcast sa sb = Some sc.
+Proof. exact broadcast_accepts_only_if_possible. Qed.
+Print Assumptions C13_broadcast_accepts_only_if_possible.
+Theorem C13_broadcast_raises_iff_impossible :
+  forall x y, forallb wf_dim x = true -> forallb wf_dim y = true ->
+  (broadcast (Some x) (Some y) = BRaise <->
+   forall sa sb, Forall2 conf sa x -> Forall2 conf sb y -> np_broadcast sa sb = None).
+Proof. exact broadcast_raises_iff_impossible. Qed.
+Print Assumptions C13_broadcast_raises_iff_impossible.
 
 (* An unknown-rank result is returned exactly when an operand has unknown rank; otherwise the rank is the larger one. *)
 Theorem C13_broadcast_unknown_rank : forall a b, broadcast a b = BShape None <-> (a = None \/ b = None).
